@@ -67,6 +67,12 @@ type Program struct {
 	// countOfTok: calls strings.Count(s, sep) whose value is len(strings.Split(s, sep)) - 1 for
 	// the one tokeniser call of the validator (same SSA operand, same non-empty constant separator)
 	countOfTok map[*ssa.Call]bool
+	// paramGlobal: parameters of a function an anchored entry point forwards to that receive
+	// the value of a package-level variable (`return newMnemonic(cryptoRander, n, lang)`)
+	paramGlobal map[*ssa.Parameter]*ssa.Global
+	// splitters: module functions matched against the hand-written byte splitter shape
+	// (byteSplitter), with the separator ("" = not one)
+	splitters map[*ssa.Function]string
 }
 
 // Load loads dir under cfg.  Any type error is returned as an error: an
